@@ -75,6 +75,24 @@ UNITS.append(dict(
     deps=["oh.schedule", "oh.date_filter", "syntax.extended_time", "syntax.sorted_vec"],
 ))
 
+UNITS.append(dict(
+    id="syntax.rules",
+    package="opening-hours-syntax",
+    owner="opening-hours-syntax/src/rules/mod.rs",
+    harness="kani/syntax/verif_rules.rs",
+    modname="verif_rules",
+    modpath="rules::verif_rules",
+))
+UNITS.append(dict(
+    id="oh.opening_hours",
+    package="",
+    owner="opening-hours/src/opening_hours.rs",
+    harness="kani/oh/verif_opening_hours.rs",
+    modname="verif_opening_hours",
+    modpath="opening_hours::verif_opening_hours",
+    deps=["oh.schedule", "oh.date_filter", "syntax.extended_time", "syntax.sorted_vec"],
+))
+
 VERUS_UNITS = [
     dict(
         id="verus_extended_time",
@@ -93,18 +111,101 @@ COMMON_ASSUMPTIONS = [
 ]
 
 # Per-property level and the clauses of the statement that no obligation speaks to.
+_TB_COMMON = [
+    "Kani 0.68 / CBMC 6.11 / CaDiCaL (bit-precise machine arithmetic); rustc MIR from Kani's pinned nightly",
+    "chrono 0.4.39 and std (Vec, VecDeque, slices, iterators) are executed as real code by CBMC, not specified",
+]
+
 PROPS = {
-    "C08": dict(level="other", technique="Kani contract harnesses (assert form) per selector / unit", level_text="TODO", level_note="TODO"),
-    "C04": dict(level="other", technique="Kani contract harnesses (assert form) per selector / unit", level_text="TODO", level_note="TODO"),
-    "C02": dict(level="other", technique="Kani contract harnesses (assert form) per selector / unit", level_text="TODO", level_note="TODO"),
-    "C01": dict(level="other", technique="Kani contract harnesses (assert form) per selector / unit", level_text="TODO", level_note="TODO"),
-    "C14": dict(level="other", technique="Kani contract harnesses (assert form), bounded lengths, trusted sort model", level_text="TODO", level_note="TODO"),
-    "C20": dict(level="other", technique="Kani contract harnesses (assert form), bounded lengths", level_text="TODO", level_note="TODO"),
+    "C01": dict(
+        level="other",
+        technique="Kani contract harnesses (assert form) per selector and time-span unit, full symbolic node x date domains",
+        level_text="Partial. The clause 'a rule applies on a day iff the day satisfies its year, month, week-number and weekday/holiday selectors (steps, nth positions, offsets, wrapping ranges, leap days, Easter)' is decided per selector type: for every AST node satisfying the grammar's invariants and every date 1900..9999 the real `filter` equals an arithmetic spec predicate (year, month, ISO week, weekday with nth-of-month, holiday calendars, list = disjunction, DaySelector = conjunction), with the leaf kernels (count_days_in_month, easter against an independent computus, valid_ymd clamps, wrapping ranges, Month next/prev) under their own contracts; 'time spans passing midnight continue on the following day' and the default sun-event times are contracts on TimeSpan::as_naive and time_selector_intervals_at(_next_day). Loop-free full-domain harnesses are complete proofs of their obligation; list/selector lengths and day offsets are bounded and labelled so. The rule-combination loop of schedule_at, dated ranges (`Mar 28-Apr 16`) and the parser link are not decided.",
+        level_note="Assumes the AST invariants read off grammar.pest/build_* (the parser is not verified, C05). Holiday calendars are abstracted by contract models (membership / least member after) justified by the C15 contracts; std sort replaced by an insertion-sort model in the time-selector harness. Not decided: rule combination in schedule_at (CBMC cannot carry it and generic trait methods cannot be stubbed), MonthdayRange::Date filter (no answer within budget), sun events with coordinates (C11).",
+        explanation="PARTIAL: selector-level and time-span-level clauses only.",
+        undecided_clauses=[
+            "'a later normal rule replaces earlier rules on the days it applies, additional rules and closed rules overlay, fallback rules apply only on days nothing else covered' (the loop of OpeningHours::schedule_at) - not decided: CBMC gives no answer for schedule_at on any expression, Kani cannot stub the generic trait methods that would cut the evaluator off",
+            "dated ranges (MonthdayRange::Date: `Mar 28-Apr 16`, `easter +1 day`, leap-day rule): only the pairing logic over abstract bound lists is under contract (C02 shape); filter == date-in-range spec is not decided (no answer in 700 s). The defects `2021 Mar 28-Apr 16` and `Apr 31` quoted in the statement live there and are recorded in DESIGN.md only",
+            "'For every expression the parser accepts': the parser->AST link is assumed (C05 not applicable)",
+        ],
+        trusted_base=_TB_COMMON + ["contract models of CompactCalendar::contains / first_after over a table of 2 symbolic holidays per calendar (justified by C15)",
+                                   "insertion-sort model of core::slice::sort::unstable::sort (time_selector harnesses)"],
+        assumptions=["AST invariants: years 1900..=9999, steps >= 1, week numbers 1..=53, variable-time offsets |x| <= 24:59, fixed start <= 24:00, end <= 48:00"],
+    ),
+    "C02": dict(
+        level="other",
+        technique="Kani contract harnesses: next_change_hint lower-bound contract per selector, is_constant soundness",
+        level_text="Partial. The mechanism that lets range iteration skip days is put under contract: for each selector type `next_change_hint(d) = Some(h)` implies h > d and filter(d') = filter(d) for every d' strictly between (one extra symbolic date = every skipped day), for all nodes and all dates (year step=1, year-less and year-ful month ranges, ISO weeks, holidays over abstract calendars, lists and DaySelector = earliest hint, dated-range pairing logic over abstract bounds); `is_constant()` implies that every day evaluates to one and the same full-day kind under a spec fold of the rule list written from C01's statement (bounded: <= 2 rules quick, 3 thorough). These are necessary conditions for 'no state change is skipped'; the stream-level statement itself (an invariant of TimeDomainIterator across days) is not decided.",
+        level_note="Assumes the AST invariants; holiday calendars abstracted by contract models (C15). Year ranges with step >= 2 are bounded (step <= 4, thorough tier). Not decided: the interval stream produced by TimeDomainIterator (non-empty, increasing, gap-free, exact cover, adjacent states differ): CBMC gives no answer on any expression and Verus rejects the code; the composition of per-rule hints in OpeningHours::next_change_hint (spill-over of the previous day, `Jul 22 04:00-48:00`).",
+        explanation="PARTIAL: hint contracts and is_constant only; the stream-level clauses are undecided.",
+        undecided_clauses=[
+            "'the intervals produced by range iteration are non-empty, in increasing order, gap-free and cover exactly [from, min(to, 10000-01-01))', 'the state of each interval is the state the daily schedules give', 'consecutive intervals have different states' - invariants of TimeDomainIterator over a caller history: not decided",
+            "the composition of hints in OpeningHours::next_change_hint with time selectors that spill into the next day (`Jul 22 04:00-48:00` stays open for a year: recorded in DESIGN.md only)",
+        ],
+        trusted_base=_TB_COMMON + ["contract models of CompactCalendar::contains / first_after (holiday hints)"],
+        assumptions=["AST invariants as for C01"],
+    ),
+    "C04": dict(
+        level="other",
+        technique="Kani automatic panic/overflow/bounds obligations on every unit under contract + Verus overflow obligations",
+        level_text="Partial. For every function under contract (ExtendedTime, UniqueSortedVec, CompactCalendar/Year/Month, Schedule::from_ranges and iteration, all date and time selector filters and hints, date kernels, is_constant) Kani's automatic obligations - arithmetic overflow, unwrap/expect on None/Err, slice bounds, explicit panic!/assert!/unreachable! - are discharged for all inputs satisfying the stated precondition; Verus discharges overflow on the ExtendedTime arithmetic. `parse`, Display, normalize and the interval iterator are not covered, and termination is not proved.",
+        level_note="Arithmetic overflow is counted as a panic (dev profile). Preconditions are the AST invariants of the grammar; the one region where they admit a panic (day offsets beyond chrono's date range, `Mo[1] +999999999 days`) is a recorded known finding with an expected-to-fail twin harness. Not decided: parse on arbitrary strings (pest), printing, normalize, state/next_change/iteration as wholes, bounded work.",
+        explanation="PARTIAL: per-unit absence of panics only.",
+        undecided_clauses=[
+            "'parse returns Ok or Err for every string' (pest-generated parser; the `10:00-12:00/30` panic in build_timespan is recorded in DESIGN.md only)",
+            "'printing, normalizing, state, next_change and range iteration return normally after a bounded amount of work' - whole-API totality and termination are not decided",
+        ],
+        trusted_base=_TB_COMMON + ["Verus / Z3 for the ExtendedTime overflow obligations"],
+        assumptions=["AST invariants as for C01; unwinding bounds per harness with unwinding assertions on"],
+    ),
+    "C08": dict(
+        level="other",
+        technique="Kani contract harnesses: schedule_at range guard, hint upper bounds, pre-1900 jump",
+        level_text="Partial. 'Before 1900-01-01 and from 10000-01-01 on every expression is closed': schedule_at returns the empty schedule for every date chrono can represent outside the range (one-rule expressions whose contribution is an arbitrary contract model), and iteration of the empty schedule is one closed range (C14). 'From an instant before 1900 ...': next_change_hint(d) = 1900-01-01 for every d before it. 'Results never leave the range' at selector level: every hint contract includes h <= 10000-01-01 and valid_ymd clamps saturate there. The clipping of reported intervals to [from, min(to, 10000-01-01)) inside iter_range/next_change is not decided.",
+        level_note="rule_sequence_schedule_at replaced by a contract model (arbitrary contribution); the day selector of the rule is the real empty one because Kani cannot stub generic trait methods. Not decided: clipping closures inside iter_range_naive / next_change (need the iterator).",
+        explanation="PARTIAL: guard and hint-bound clauses only.",
+        undecided_clauses=[
+            "'No reported interval starts before the requested start or ends after min(requested end, 10000-01-01T00:00); next_change never returns an instant at or beyond 10000-01-01' - these live in closures applied to the interval iterator's output: not decided",
+        ],
+        trusted_base=_TB_COMMON + ["contract model of rule_sequence_schedule_at (contributes nothing or a whole-day open schedule with a comment)"],
+        assumptions=[],
+    ),
+    "C14": dict(
+        level="other",
+        technique="Kani contract harnesses (assert form) on Schedule::from_ranges / insert / addition / IntoIter, bounded lengths",
+        level_text="Bounded and partial. from_ranges: for any 1-2 (3 thorough) input ranges with bounds anywhere in 00:00..=48:00 (overlapping, nested, adjacent, empty, inverted) the result has non-empty, increasing, disjoint ranges and covers exactly the union of the inputs (one symbolic query minute = every minute). Iteration of any well-formed schedule of <= 2 ranges: gap-free tiling from 00:00, non-empty items, adjacent kinds differ, closed in holes, at most 2n+1 items, covers the day. insert/addition only for an empty left or right operand: with a non-empty existing schedule CBMC needs > 60 GB (drop/clone glue of Vec<Arc<str>> on symbolic heap contents), so 'after addition every minute shows the kind of the most recently added schedule' is not decided.",
+        level_note="Trusted models: core::slice::sort::unstable::sort (insertion sort through the caller's comparison) and, in these kind/range harnesses, the comment union (left operand; comments never influence control flow in schedule.rs; the real union is verified under C20). Lengths bounded as stated per harness.",
+        explanation="BOUNDED (<= 2 ranges, 3 in thorough) and PARTIAL (addition with two non-empty operands undecided).",
+        undecided_clauses=[
+            "'after addition every minute shows the kind of the most recently added schedule covering it, earlier schedules showing through elsewhere' for two non-empty operands (Schedule::insert with existing ranges): out of CBMC's reach (> 60 GB), Verus rejects the code",
+        ],
+        trusted_base=_TB_COMMON + ["insertion-sort model of core::slice::sort::unstable::sort", "left-operand model of UniqueSortedVec::union (empty comment sets)"],
+        assumptions=["operand lengths bounded per harness (const generics); all range bounds and kinds symbolic"],
+    ),
     "C15": dict(
         level="other",
-        technique="Kani function contracts, modular (month -> year -> calendar via stub_verified)",
-        level_text="TODO",
-        level_note="TODO",
+        technique="Kani function contracts, modular (CompactMonth -> CompactYear -> CompactCalendar via stub_verified)",
+        level_text="Complete for CompactMonth and CompactYear, bounded for CompactCalendar. Month: insert/contains/first/first_after/count/iter and (de)serialisation against the set-of-days view for all 2^31 bitmaps x all days (loop-free or 31-bit loops with unwinding assertions), including readers that return short reads. Year: the same statements lexicographically over (month, day) for 12 symbolic months, month operations replaced by their proved contracts (stub_verified); whole-view postconditions through a ghost query date. Calendar: insert (reports newness, exactly the inserted date is added - query date anywhere, window anywhere in chrono's range), contains, count, first_after (the strictly next member, also across empty years), equality, for calendars of <= 3 stored years with year operations replaced by their contracts; iteration and calendar-level serialisation only in the thorough tier.",
+        level_note="Contracts are overlaid as #[kani::requires/ensures/modifies] attributes; quick tier proves the same predicates in assert form where Kani's contract instrumentation is 60-200x more expensive (the proof_for_contract harnesses that stub_verified refers to run in the thorough tier). Calendar level bounded: <= 3 stored years, window growth <= 3 years per insert. The representation invariant (only valid dates set) is a precondition, established by insert(NaiveDate).",
+        explanation="month/year obligations complete; calendar obligations BOUNDED (<= 3 stored years).",
+        undecided_clauses=[
+            "unbounded year windows; 'after any sequence of insertions' beyond the bounded windows follows only inductively from the per-operation contracts (insert preserves the view), which is argued in DESIGN.md, not machine-checked",
+        ],
+        trusted_base=_TB_COMMON,
+        assumptions=["calendar harnesses: window of <= 3 stored years anywhere in chrono's range, growth <= 3 years"],
+    ),
+    "C17": dict(
+        level="other",
+        technique="Kani contract harnesses with real Arc<str> comment sets on Schedule::from_ranges / IntoIter; UniqueSortedVec invariant",
+        level_text="Partial and bounded. 'Sorted, free of duplicates': the UniqueSortedVec invariant, established by From<Vec> (the parser's constructor) and preserved by union (C20 obligations). 'Empty outside the supported date range': schedule_at guard (C08 harness). 'All taken from rules of the expression' / 'a period contributed by exactly one rule carries exactly that rule's comments' at Schedule level: from_ranges gives every output range exactly the given comment set and iteration hands an untouched range's comments through unchanged and gives holes no comments (1 range, real Arc<str> union). The interval-iterator clause and days to which no rule contributes are not decided.",
+        level_note="Bounded: 1 range with a 1-comment set through the real union; insert/addition with comments are out of CBMC's reach (see C14).",
+        explanation="PARTIAL and BOUNDED.",
+        undecided_clauses=[
+            "'range iteration reports for its first interval the comments of the schedule period containing the start instant' (TimeDomainIterator): not decided",
+            "'on days to whose schedule no rule contributes' and comments after Schedule::addition of non-empty schedules: not decided (schedule_at loop / insert out of reach)",
+        ],
+        trusted_base=_TB_COMMON + ["insertion-sort model of core::slice::sort::unstable::sort"],
+        assumptions=[],
     ),
     "C19": dict(
         level="proof",
@@ -118,5 +219,15 @@ PROPS = {
                            "string reasoning) - not decided deductively"],
         trusted_base=["chrono 0.4.39 NaiveTime::from_hms_opt / hour / minute executed as real code by CBMC"],
         assumptions=["Verus assume_specification: <i16 as From<u8>>::from(x) == x (no vstd spec for this impl)"],
+    ),
+    "C20": dict(
+        level="other",
+        technique="Kani contract harnesses (assert form) on From<Vec>, union, contains, find_first_following; bounded lengths, all u8 values",
+        level_text="Bounded. Element type u8 with every value symbolic, operand lengths concrete per harness: From<Vec> (<= 3 quick, 4 thorough) yields exactly the distinct elements in strictly increasing order; union of any two values satisfying the type invariant (lengths up to (2,2) quick, (3,3) thorough) is strictly increasing and exactly the set union, with every arm of the five-way case split covered; contains agrees with membership and find_first_following is the least element not smaller (<= 4). new/default/clone/to_ref/into keep elements and invariant.",
+        level_note="Unbounded proof is not available (Verus rejects `mut self` and slice patterns; no loop contracts over std internals). The type invariant is a precondition of union/contains/find_first_following and a postcondition of every constructor. Real std sort and dedup are executed by CBMC here (no sort model).",
+        explanation="BOUNDED: lengths as stated per harness; instance u8.",
+        undecided_clauses=["unbounded lengths; element types other than u8 (Arc<str> is exercised under C17)"],
+        trusted_base=_TB_COMMON,
+        assumptions=[],
     ),
 }
